@@ -56,6 +56,12 @@ import copy
 import functools
 import logging
 import math
+import os
+
+# 16 worker processes x one BLAS thread pool per process = heavy oversubscription (measured: a 14 ms layout takes
+# 340 ms on a loaded machine); the checks only do small-array arithmetic. Must happen before numpy is first imported.
+for _v in ('OPENBLAS_NUM_THREADS', 'OMP_NUM_THREADS', 'MKL_NUM_THREADS'):
+    os.environ.setdefault(_v, '1')
 
 import networkx as nx
 import numpy as np
@@ -66,7 +72,7 @@ from gen import coords_mols as cm
 ID = 'C18'
 LEVEL = 'exploration'
 P_TARGETS = []
-BUDGET = {'quick': 33.0, 'thorough': 420.0}
+BUDGET = {'quick': 30.0, 'thorough': 420.0}
 CHUNK = 12
 BOUNDS = {
     'quick': {'molecules': 'fixed list (21 hand-written + 11 E/Z), 53 single fragments, 112 ordered pairs, 26 homopolymers, '
@@ -75,13 +81,13 @@ BOUNDS = {
               'roundtrip': '6 labelings without conformer, 3 of them also with conformer, + implicit-hydrogen form x 2 labelings',
               'embed': '3 labelings per molecule (resolver keys, permuted+shuffled, gapped+reversed)',
               'fmap': '4 labelings x 2 position seeds x 1 translation per weighted molecule',
-              'max_atoms': 'about 80'},
-    'thorough': {'molecules': 'fixed list, single fragments, 26 x 20 + 12 x 12 ordered pairs, homopolymers n=3,5, 800 seeded random '
-                              'assemblies (<= 8 beads); weighted: 81 fixed + 1500 seeded random',
+              'max_atoms': 75, 'distinct_strings': 603},
+    'thorough': {'molecules': 'fixed list, single fragments, 26 x 20 + 12 x 12 ordered pairs, homopolymers n=3,5, 400 seeded random '
+                              'assemblies (<= 8 beads); weighted: 81 fixed + 800 seeded random',
                  'roundtrip': '10 labelings x {no conformer, conformer} + implicit-hydrogen form x 3 labelings',
                  'embed': '6 labelings per molecule',
-                 'fmap': '8 labelings x 3 position seeds x 2 translations per weighted molecule',
-                 'max_atoms': 'about 110'},
+                 'fmap': '8 labelings x 2 position seeds x 2 translations per weighted molecule',
+                 'max_atoms': 82, 'distinct_strings': 2071},
 }
 EXHAUSTIVE = {'quick': False, 'thorough': False}
 RULE = ('CGsmiles strings from gen/coords_mols.py (fixed list, every pool fragment alone, ordered pairs, homopolymers, then seeded '
@@ -156,7 +162,7 @@ def _mol_cases(s, tier, idx):
 
 
 def _fmap_cases(s, tier, idx):
-    nps = 2 if tier == 'quick' else 3
+    nps = 2
     nsh = 1 if tier == 'quick' else 2
     for li, lab in enumerate(FM_LABELS[tier]):
         for p in range(nps):
@@ -167,9 +173,9 @@ def _fmap_cases(s, tier, idx):
 
 def cases(tier, seed):
     quick = tier == 'quick'
-    plain = list(cm.cgsmiles_strings(seed, 100 if quick else 800, weights=False, pairs='some' if quick else 'most',
+    plain = list(cm.cgsmiles_strings(seed, 100 if quick else 400, weights=False, pairs='some' if quick else 'most',
                                      max_beads=6 if quick else 8))
-    weighted = list(cm.cgsmiles_strings(seed, 200 if quick else 1500, weights=True, max_beads=6 if quick else 8))
+    weighted = list(cm.cgsmiles_strings(seed, 200 if quick else 800, weights=True, max_beads=6 if quick else 8))
     seen = set()
     plain = [s for s in plain if not (s in seen or seen.add(s))]
     weighted = [s for s in weighted if not (s in seen or seen.add(s))]
@@ -235,10 +241,10 @@ def _same_chemistry(G, H):
     return None if ok else 'same atom environments but no isomorphism respecting element, charge, H count and bond order'
 
 
-def _check_positions(G, mol, what):
-    """Every node of G has a finite 3-vector that is the conformer position of "its own" atom of `mol`:
-    node -> atom found at that position is injective, keeps the element, maps bonds to bonds.
-    Returns (kind, detail) or None."""
+def _check_positions(G, mol, what, P=None):
+    """Every node of G has a finite 3-vector that is the conformer position (array P, default: the current
+    conformer) of "its own" atom of `mol`: node -> atom found at that position is injective, keeps the element,
+    maps bonds to bonds.  Returns (kind, detail) or None."""
     bad = []
     for n, d in G.nodes(data=True):
         p = d.get('position')
@@ -246,7 +252,8 @@ def _check_positions(G, mol, what):
             bad.append((n, None if p is None else repr(p)[:40]))
     if bad:
         return 'position-missing-or-not-finite', '%s: %d of %d nodes without a finite 3-vector, e.g. %s' % (what, len(bad), len(G), bad[:3])
-    P = np.asarray(mol.GetConformer().GetPositions(), dtype=float)
+    if P is None:
+        P = np.asarray(mol.GetConformer().GetPositions(), dtype=float)
     atom_of = {}
     for n in G.nodes:
         dist = np.linalg.norm(P - G.nodes[n]['position'], axis=1)
@@ -287,8 +294,13 @@ class _CaptureEmbedding:
             self.orig[name] = fn
 
             def wrapper(mol, *a, _fn=fn, **k):
-                self.mols.append(mol)
-                return _fn(mol, *a, **k)
+                res = _fn(mol, *a, **k)
+                try:   # one coherent conformer of the molecule after each RDKit step
+                    if mol.GetNumConformers():
+                        self.mols.append((mol, np.array(mol.GetConformer().GetPositions(), dtype=float)))
+                except Exception:
+                    pass
+                return res
             setattr(AllChem, name, wrapper)
         return self
 
@@ -306,7 +318,8 @@ def _rdkit_refusal(exc):
             return True
     except Exception:
         pass
-    return isinstance(exc, (ValueError, RuntimeError)) and 'onformer' in str(exc)
+    msg = str(exc)
+    return isinstance(exc, (ValueError, RuntimeError)) and ('onformer' in msg or 'Invariant Violation' in msg or 'RDKIT:' in msg)
 
 
 def _bead_expectation(cg, aa):
@@ -434,10 +447,16 @@ def _check_embed(case, key, cg, aa):
         fails.append(Failure('embed_3d_via_rdkit', 'exception', '%s: %s; node order %s' % (type(e).__name__, e, list(G.nodes)[:12]),
                              classify('embed_3d_via_rdkit', kc, type(e).__name__)))
         return Outcome(key, nontrivial, fails)
-    mol = cap.mols[-1] if cap.mols else None
-    if mol is None or mol.GetNumConformers() == 0:
+    if not cap.mols:
         return Outcome(key, False, [], skipped=True, note='the RDKit molecule embedded by the code could not be observed')
-    bad = _check_positions(G, mol, 'graph after embed_3d_via_rdkit')
+    # the stored coordinates must be those of one coherent conformer RDKit produced (after embedding or after UFF)
+    bad = None
+    for mol, P in reversed(cap.mols):
+        r = _check_positions(G, mol, 'graph after embed_3d_via_rdkit', P)
+        if r is None:
+            bad = None
+            break
+        bad = bad or r
     if bad:
         fails.append(Failure('embed_3d_via_rdkit', bad[0], bad[1], classify('embed_3d_via_rdkit', kc, bad[0])))
         return Outcome(key, nontrivial, fails)
